@@ -6,7 +6,7 @@ From Coq Require Extraction.
 From Coq Require Import ExtrOcamlBasic.
 From Coq Require Import ZArith NArith.
 From AJ Require Import Model.Base Model.FloatModel Model.Value Model.Utf Model.NumParse
-  Model.JsonParse Model.JsonSer Model.MsgPack Model.Stream Model.Convert Model.Compare Model.Tree Model.Pool Model.Collection Model.MsgPackTypes.
+  Model.JsonParse Model.JsonSer Model.MsgPack Model.Stream Model.Convert Model.Compare Model.Tree Model.Chain Model.Pool Model.Collection Model.MsgPackTypes.
 Extraction Language OCaml.
 Extraction "model.ml"
   N.div_eucl Z.div_eucl Z.of_N Z.to_N N.of_nat N.to_nat Z.opp N.mul N.add Z.mul Z.add Z.sub
@@ -17,7 +17,7 @@ Extraction "model.ml"
   mp_ser mp_run json_stream mp_stream
   as_int as_float is_int is_float I8 U8 I16 U16 I32 U32 I64 U64
   compare op_eq op_ne op_lt op_le op_gt op_ge
-  init_world step live get doc_of to_jv ids invalidates_handles set_on_unbound
+  init_world step live get doc_of to_jv ids invalidates_handles set_on_unbound chain_get chain_set
   ps0 pstep alloc_from_last max_pools count sp_add sp_deref sp_refs
   a_init astep elements
   copy_array_1d copy_array_2d copy_string
